@@ -98,6 +98,19 @@ def full(Y):
     return Z.reshape(shp)
 
 
+def dense_accuracy_on_data(Y, I, y):
+    """||Y[I] - y|| / ||y|| from the dense expansion of Y; -1 when the reference values are all zero / missing"""
+    if I is None or y is None:
+        return -1.0
+    I = np.asarray(I, dtype=int).reshape(-1, len(Y))
+    y = np.asarray(y, dtype=float).reshape(-1)
+    ny = float(np.sqrt(np.sum(y * y)))
+    if ny == 0.0:
+        return -1.0
+    v = full(Y)[tuple(I.T)]
+    return float(np.sqrt(np.sum((v - y) ** 2)) / ny)
+
+
 def observe(tn, cfg, g=None, Y0=None, f_override=None):
     """Run teneva.cross (through lib_cross.run_impl, so with its recorders) plus: a recorder on teneva.copy (the
     Yold copies made by cross), independent snapshots of Y at every sweep end (taken in the callback)."""
@@ -246,6 +259,12 @@ def oracle_info(tn, cfg, o=None):
             if not feq(info['e_vld'], ev):
                 return _fail('info[e_vld] is not the validation error of the returned tensor', cfg,
                              got=float(info['e_vld']), expected=float(ev))
+            # independent dense reference (the runs of this stream are far from converged: the objective has high rank)
+            if o['I_vld'] is not None and o['y_vld'] is not None and np.prod(cfg['ns']) <= 4096:
+                ref = dense_accuracy_on_data(Y, o['I_vld'], o['y_vld'])
+                if not (feq(info['e_vld'], ref) or abs(float(info['e_vld']) - ref) <= 1e-9 * (1 + abs(ref))):
+                    return _fail('info[e_vld] is not ||Y[I_vld] - y_vld|| / ||y_vld|| of the returned tensor (dense '
+                                 'reference)', cfg, got=float(info['e_vld']), expected=float(ref))
             if len(o['copies']) < 2:
                 return _fail('cross did not save the tensor of the previous sweep (teneva.copy not called)', cfg)
             Yold = o['copies'][-1]
@@ -876,6 +895,64 @@ def gen_lowrank_ret(rng):
     return c
 
 
+
+def gen_accdata(rng):
+    d = rng.choice([2, 3, 3, 4])
+    ns = [rng.randint(1, 4) for _ in range(d)]
+    r = [1] + [rng.randint(1, 3) for _ in range(d - 1)] + [1]
+    return dict(ns=ns, r=r, seed=rng.randrange(10 ** 6), m=rng.choice([1, 1, 2, 7, 20]),
+                kind=rng.choice(['far', 'far', 'near', 'exact', 'zero_data', 'zero_tensor', 'none']),
+                form=rng.choice(['array', 'list', 'int32_float32']), scale=rng.choice([1.0, 1.0, 2.0 ** 40, 2.0 ** -40]))
+
+
+def oracle_accdata(tn, c):
+    """direct check of teneva.accuracy_on_data (the routine behind info[e_vld]) against the dense formula
+    ||Y[I] - y|| / ||y||, on data that differ substantially from the tensor as well as slightly / not at all"""
+    def fail(what, **kw):
+        return dict(what='C05: ' + what, input=dict(accdata=c), **kw)
+    rng = np.random.default_rng(c['seed'])
+    d = len(c['ns'])
+    Y = [rng.normal(size=(c['r'][k], c['ns'][k], c['r'][k + 1])) for k in range(d)]
+    Y[0] = Y[0] * c['scale']
+    if c['kind'] == 'zero_tensor':
+        Y[0] = Y[0] * 0
+    I = np.array([[int(rng.integers(0, n)) for n in c['ns']] for _ in range(c['m'])])
+    v = full(Y)[tuple(I.T)]
+    if c['kind'] == 'far':
+        y = v * rng.uniform(0.2, 3.0, size=len(v)) + c['scale'] * rng.normal(size=len(v))
+    elif c['kind'] == 'near':
+        y = v * (1 + 1e-6 * rng.normal(size=len(v)))
+    elif c['kind'] == 'zero_data':
+        y = np.zeros(len(v))
+    elif c['kind'] == 'zero_tensor':
+        y = c['scale'] * rng.normal(size=len(v))
+    else:
+        y = v.copy()
+    Ia, ya = I, y
+    if c['form'] == 'list':
+        Ia, ya = I.tolist(), y.tolist()
+    elif c['form'] == 'int32_float32':
+        Ia, ya = I.astype(np.int32), y.astype(np.float32)
+        y = ya.astype(float)
+    if c['kind'] == 'none':
+        Ia = None
+    Ys = [G.copy() for G in Y]
+    try:
+        with warnings.catch_warnings():
+            warnings.simplefilter('ignore')
+            with np.errstate(all='ignore'):
+                got = float(tn.accuracy_on_data(Y, Ia, ya))
+    except Exception as e:  # noqa
+        return fail('accuracy_on_data raised ' + repr(e)[:200])
+    if not cores_equal(Y, Ys):
+        return fail('accuracy_on_data modified the tensor')
+    ref = dense_accuracy_on_data(Y, None if c['kind'] == 'none' else I, y)
+    tol = 1e-9 * (1 + abs(ref)) if c['kind'] in ('far', 'zero_tensor', 'zero_data', 'none') else 1e-9 * (1 + abs(ref)) + 1e-12
+    if not (feq(got, ref) or abs(got - ref) <= tol):
+        return fail('accuracy_on_data differs from ||Y[I] - y|| / ||y||', got=got, expected=ref)
+    return None
+
+
 # ------------------------------------------------------------------------------------------------ correspondence
 
 def _pair_cfg(rng, small=False):
@@ -1213,6 +1290,18 @@ def correspondence(R, ctx):
                        comparison='info r / e_vld / e recomputed on the returned cores (bitwise); reference of e = '
                                   'copy made at sweep start = independent snapshot of the previous sweep',
                        distribution={}, first_mismatches=info_bad[:3]))
+    abad, na_ = [], 0
+    for _ in range(600 if thorough else 150):
+        c = gen_accdata(rng)
+        na_ += 1
+        R.add_distinct(('accdata', c))
+        fl = oracle_accdata(tn, c)
+        if fl:
+            abad.append(fl)
+    R.corr.append(dict(name='teneva.accuracy_on_data (the routine behind info[e_vld]) vs dense ||Y[I] - y|| / ||y||',
+                       cases=na_, mismatches=len(abad), comparison='1e-9 relative; -1 for missing / all-zero data',
+                       distribution=dict(kinds=['far', 'near', 'exact', 'zero_data', 'zero_tensor', 'none'],
+                                         forms=['array', 'list', 'int32_float32']), first_mismatches=abad[:3]))
     rbad, nr_ = [], 0
     for _ in range(300 if thorough else 70):
         cfg = dict(_pair_cfg(rng, small=rng.random() < 0.4), ret=rng.choice(RET_FORMS))
@@ -1226,7 +1315,7 @@ def correspondence(R, ctx):
                        comparison='cores float64 and bitwise equal to the float64-objective run, with and without cache; '
                                   'info r/e/e_vld bitwise; cache values Python floats',
                        distribution=dict(forms=RET_FORMS), first_mismatches=rbad[:3]))
-    pair_bad = pair_bad + rbad
+    pair_bad = pair_bad + rbad + abad
     hbad, nh = [], 0
     for _ in range(300 if thorough else 60):
         h = gen_history(rng)
@@ -1377,6 +1466,22 @@ def search(R, ctx, deep, hints):
             pass
     fs += [gen_forms(rng) for _ in range(600 if deep else 100)]
     os_ += [gen_objhist(rng) for _ in range(400 if deep else 60)]
+    acs = []
+    for h in hints[:40]:
+        try:
+            inp = h['input'][1]
+            if isinstance(inp, dict) and isinstance(inp.get('accdata'), dict):
+                acs.append(inp['accdata'])
+        except Exception:
+            pass
+    acs += [gen_accdata(rng) for _ in range(800 if deep else 150)]
+    for c in acs:
+        n5 += 1
+        f = oracle_accdata(tn, c)
+        if f:
+            f['kind'] = 'accdata'
+            fails.append(f)
+            break
     for c in fs:
         n5 += 1
         f = oracle_forms(tn, c)
@@ -1405,6 +1510,10 @@ def replay(data):
     inp = p.get('input')
     if isinstance(inp, dict) and isinstance(inp.get('lowrank'), dict):
         f = oracle_exact(tn, inp['lowrank'])
+        print('replayed:', f)
+        return 1 if f else 0
+    if isinstance(inp, dict) and isinstance(inp.get('accdata'), dict):
+        f = oracle_accdata(tn, inp['accdata'])
         print('replayed:', f)
         return 1 if f else 0
     if isinstance(inp, dict) and isinstance(inp.get('forms'), dict):
